@@ -2,7 +2,7 @@
 from ..core import AnalysisError, term_s
 from ..paths import PathEnum
 from ..tables import byte_matcher_language, enum_const_table, string_matcher, strip_refs
-from .util import CASEFOLD, NEUTRAL_STR, TRIM, cond_holds, const_of, is_call, last_seg, look, norm, transforms, truth
+from .util import payload_of, CASEFOLD, NEUTRAL_STR, TRIM, cond_holds, const_of, is_call, last_seg, look, norm, transforms, truth
 
 EXPLANATION = (
     "Static decision of the token tables: the exact accepted language of Method::try_from and "
@@ -178,8 +178,8 @@ def abs_path(ctx):
                 # start of the returned slice: Some payload of position(bytes(inner-slice), |b| b == '/')
                 st = look(rng)
                 pos_ok = False
-                if st[0] == "field" and st[1][0] == "downcast" and st[1][2] == "Some" and is_call(st[1][1], "position"):
-                    pos = st[1][1]
+                if payload_of(st) is not None and is_call(payload_of(st), "position"):
+                    pos = payload_of(st)
                     it = look(pos[2][0])
                     pos_ok = is_call(it, "bytes") and norm(look(it[2][0])) == norm(b2) and slash_closure(pos[2][1])
                 ok = pref_ok and pos_ok
